@@ -788,6 +788,8 @@ def _flat_args(args):
 def b_min(*args, **kw):
     xs = _flat_args(args)
     if not any(is_sym(x) for x in xs):
+        if len(args) == 1 and not hasattr(args[0], "flat_list"):
+            return _bi.min(xs, **kw)        # the argument may be a one-shot iterator, already consumed above
         return _bi.min(*args, **kw)
     r = xs[0]
     for x in xs[1:]:
@@ -798,6 +800,8 @@ def b_min(*args, **kw):
 def b_max(*args, **kw):
     xs = _flat_args(args)
     if not any(is_sym(x) for x in xs):
+        if len(args) == 1 and not hasattr(args[0], "flat_list"):
+            return _bi.max(xs, **kw)        # the argument may be a one-shot iterator, already consumed above
         return _bi.max(*args, **kw)
     r = xs[0]
     for x in xs[1:]:
